@@ -1,0 +1,185 @@
+//! Verification hooks. Compiled only with the `verif-hooks` feature (off by
+//! default). The hooks observe; they never change control flow or results.
+
+use std::cell::{Cell, RefCell};
+use std::sync::atomic::{AtomicU64, AtomicUsize, Ordering};
+
+/// One `JmespathError::from_ctx` observation.
+#[derive(Clone, Debug, PartialEq)]
+pub struct FromCtxEvent {
+    /// `ctx.offset` used for the error.
+    pub ctx_offset: usize,
+    /// Offset and name of the innermost call being evaluated, if any.
+    pub active_call: Option<(usize, String)>,
+    /// Depth of the shadow call stack.
+    pub call_depth: usize,
+    /// True when the error is `RuntimeError::InvalidSlice`.
+    pub is_slice: bool,
+}
+
+/// Step and depth counters (evidence only).
+#[derive(Clone, Copy, Debug, Default, PartialEq)]
+pub struct Counters {
+    pub interp_steps: u64,
+    pub interp_max_depth: u64,
+    pub parse_steps: u64,
+    pub parse_max_depth: u64,
+    pub calls: u64,
+}
+
+thread_local! {
+    static CALLS: RefCell<Vec<(usize, String)>> = RefCell::new(Vec::new());
+    static EVENTS: RefCell<Vec<FromCtxEvent>> = RefCell::new(Vec::new());
+    static COUNTERS: Cell<Counters> = Cell::new(Counters::default());
+    static INTERP_DEPTH: Cell<u64> = Cell::new(0);
+    static PARSE_DEPTH: Cell<u64> = Cell::new(0);
+}
+
+static RUNTIME_INITS: AtomicUsize = AtomicUsize::new(0);
+static RUNTIME_INIT_TICKET: AtomicU64 = AtomicU64::new(0);
+static DELAY_SPINS: AtomicU64 = AtomicU64::new(0);
+static TICKETS: AtomicU64 = AtomicU64::new(1);
+
+/// Guard for the shadow call stack.
+pub struct CallGuard;
+
+impl CallGuard {
+    pub fn enter(offset: usize, name: &str) -> CallGuard {
+        CALLS.with(|c| c.borrow_mut().push((offset, name.to_owned())));
+        COUNTERS.with(|c| {
+            let mut v = c.get();
+            v.calls += 1;
+            c.set(v);
+        });
+        CallGuard
+    }
+}
+
+impl Drop for CallGuard {
+    fn drop(&mut self) {
+        CALLS.with(|c| {
+            c.borrow_mut().pop();
+        });
+    }
+}
+
+/// Guard counting `interpret` activations.
+pub struct InterpGuard;
+
+impl InterpGuard {
+    pub fn enter() -> InterpGuard {
+        let d = INTERP_DEPTH.with(|d| {
+            d.set(d.get() + 1);
+            d.get()
+        });
+        COUNTERS.with(|c| {
+            let mut v = c.get();
+            v.interp_steps += 1;
+            if d > v.interp_max_depth {
+                v.interp_max_depth = d;
+            }
+            c.set(v);
+        });
+        InterpGuard
+    }
+}
+
+impl Drop for InterpGuard {
+    fn drop(&mut self) {
+        INTERP_DEPTH.with(|d| d.set(d.get().saturating_sub(1)));
+    }
+}
+
+/// Guard counting `Parser::expr` activations.
+pub struct ParseGuard;
+
+impl ParseGuard {
+    pub fn enter() -> ParseGuard {
+        let d = PARSE_DEPTH.with(|d| {
+            d.set(d.get() + 1);
+            d.get()
+        });
+        COUNTERS.with(|c| {
+            let mut v = c.get();
+            v.parse_steps += 1;
+            if d > v.parse_max_depth {
+                v.parse_max_depth = d;
+            }
+            c.set(v);
+        });
+        ParseGuard
+    }
+}
+
+impl Drop for ParseGuard {
+    fn drop(&mut self) {
+        PARSE_DEPTH.with(|d| d.set(d.get().saturating_sub(1)));
+    }
+}
+
+/// Called by `JmespathError::from_ctx`.
+pub fn error_from_ctx(ctx_offset: usize, is_slice: bool) {
+    let (active_call, call_depth) = CALLS.with(|c| {
+        let c = c.borrow();
+        (c.last().cloned(), c.len())
+    });
+    EVENTS.with(|e| {
+        e.borrow_mut().push(FromCtxEvent {
+            ctx_offset,
+            active_call,
+            call_depth,
+            is_slice,
+        })
+    });
+}
+
+/// Called inside the initialiser of `DEFAULT_RUNTIME`, between creating the
+/// runtime and registering the built-in functions.
+pub fn runtime_init_point() {
+    RUNTIME_INITS.fetch_add(1, Ordering::SeqCst);
+    RUNTIME_INIT_TICKET.store(next_ticket(), Ordering::SeqCst);
+    let spins = DELAY_SPINS.load(Ordering::SeqCst);
+    for i in 0..spins {
+        if i % 64 == 0 {
+            std::thread::yield_now();
+        }
+        std::hint::spin_loop();
+    }
+}
+
+/// Arms the delay injected by `runtime_init_point` (0 = none).
+pub fn arm_init_delay(spins: u64) {
+    DELAY_SPINS.store(spins, Ordering::SeqCst);
+}
+
+/// (number of times the default runtime initialiser ran, ticket at which it ran).
+pub fn runtime_init_info() -> (usize, u64) {
+    (
+        RUNTIME_INITS.load(Ordering::SeqCst),
+        RUNTIME_INIT_TICKET.load(Ordering::SeqCst),
+    )
+}
+
+/// Process-wide monotonic ticket, for ordering observations across threads.
+pub fn next_ticket() -> u64 {
+    TICKETS.fetch_add(1, Ordering::SeqCst)
+}
+
+/// Drains this thread's `from_ctx` observations.
+pub fn take_events() -> Vec<FromCtxEvent> {
+    EVENTS.with(|e| std::mem::take(&mut *e.borrow_mut()))
+}
+
+/// This thread's counters.
+pub fn counters() -> Counters {
+    COUNTERS.with(|c| c.get())
+}
+
+/// Resets this thread's counters, events and shadow stacks.
+pub fn reset() {
+    COUNTERS.with(|c| c.set(Counters::default()));
+    EVENTS.with(|e| e.borrow_mut().clear());
+    CALLS.with(|c| c.borrow_mut().clear());
+    INTERP_DEPTH.with(|d| d.set(0));
+    PARSE_DEPTH.with(|d| d.set(0));
+}
